@@ -173,10 +173,37 @@ def check_guard(ctx, rule, f, sink_nodes, forms, required, names, what, engine="
     if not sink_nodes:
         ctx.unknown(rule, f, what, "guarded construct not found (idiom not recognised)", engine=engine)
         return
+    # sinks may be given as (cfg node, call term) pairs (the result of find_calls): the term's AST node then gives the
+    # position of the construct *inside* its statement, and short-circuit operands / conditional expressions /
+    # comprehension filters in front of it count as guards too
+    sink_asts = {}
+    plain = []
+    for s_ in sink_nodes:
+        if isinstance(s_, tuple):
+            n_, t_ = s_
+            if n_ not in plain:
+                plain.append(n_)
+            if getattr(t_, "node", None) is not None:
+                sink_asts.setdefault(n_.id, []).append(t_.node)
+        else:
+            plain.append(s_)
+    sink_nodes = plain
     cfg = fa.cfg
     ref_tests = {t.id for t, _ in refusals(fa)}
     tests = {}
     opaque_refusals = set()
+    # a statement that only calls a helper of the repository which can raise (its value is discarded) is a refusal
+    # written as a function: the rule cannot look inside, so a sink behind it is undecided, not violated
+    for n in cfg.stmts():
+        if n.kind == "stmt" and isinstance(n.ast, ast.Expr) and isinstance(n.ast.value, ast.Call) and cfg.is_reachable(n) and n not in sink_nodes:
+            try:
+                from .resolve import Resolver
+                R = ctx.cached("resolver", lambda: Resolver(ctx))
+                targets = R.resolve_call(fa.term(n.ast.value, n), fa) or []
+            except Exception:
+                targets = []
+            if any(any(isinstance(x, (ast.Raise, ast.Assert)) for x in ast.walk(g.node)) for g in targets):
+                opaque_refusals.add(n.id)
     for n in cfg.nodes:
         if n.kind == "test" and cfg.is_reachable(n):
             fm = forms.of(fa.term(n.ast, n))
@@ -203,6 +230,13 @@ def check_guard(ctx, rule, f, sink_nodes, forms, required, names, what, engine="
             r1 = _feasible_reach(cfg, src, s, tests, A, avoid=())
             if not r1:
                 continue
+            # guards inside the statement (a and b, a or b, x if c else y, comprehension filters)
+            loc = _local_guard(fa, s, sink_asts.get(s.id), forms, A)
+            if loc is False:
+                continue
+            if loc is None:
+                verdict, wit = None, dict(A)
+                continue
             r2 = _feasible_reach(cfg, src, s, tests, A, avoid=opaque_refusals)
             if r2:
                 verdict, wit = False, dict(A)
@@ -218,6 +252,64 @@ def check_guard(ctx, rule, f, sink_nodes, forms, required, names, what, engine="
                 node=node, engine=engine)
         else:
             ctx.unknown(rule, f, what, "depends on a refusal the rule does not recognise", node=node, engine=engine)
+
+
+def _expr_path(root, target):
+    """list of (ancestor, child) pairs from root down to target"""
+    path = []
+
+    def rec(n):
+        if n is target:
+            return True
+        for c in ast.iter_child_nodes(n):
+            if rec(c):
+                path.append((n, c))
+                return True
+        return False
+    return list(reversed(path)) if rec(root) else None
+
+
+def _local_guard(fa, s, targets, forms, A):
+    """are the sink expressions inside statement s evaluated under assignment A?  True: at least one certainly may be;
+    False: every one of them sits behind a short-circuit / conditional guard that A makes false; None: a guard the
+    rule cannot interpret decides"""
+    if not targets or s.ast is None:
+        return True
+    verdicts = []
+    for tg in targets:
+        path = _expr_path(s.ast, tg)
+        if path is None:
+            verdicts.append(True)
+            continue
+        local = []
+        for anc, child in path:
+            if isinstance(anc, ast.BoolOp):
+                i = anc.values.index(child) if child in anc.values else 0
+                for prev in anc.values[:i]:
+                    local.append((prev, isinstance(anc.op, ast.And)))
+            elif isinstance(anc, ast.IfExp) and child is not anc.test:
+                local.append((anc.test, child is anc.body))
+            elif isinstance(anc, (ast.GeneratorExp, ast.ListComp, ast.SetComp)) and child is anc.elt:
+                for g in anc.generators:
+                    for c in g.ifs:
+                        local.append((c, True))
+        v = True
+        for e, truth in local:
+            out = []
+            _split_fact(fa.term(e, s), truth, s, out)
+            for t, tr, _ in out:
+                r = ev(forms.of(t), A)
+                if r is None:
+                    if any(a.startswith("?") for a in atoms_of(forms.of(t))):
+                        v = None if v is True else v
+                elif r != tr:
+                    v = False
+        verdicts.append(v)
+    if any(v is True for v in verdicts):
+        return True
+    if any(v is None for v in verdicts):
+        return None
+    return False
 
 
 class _Partial(dict):
